@@ -19,3 +19,21 @@ Proof. reflexivity. Qed.
 
 Lemma assigns_from_saved_state_agree : Generated.FactsC07.assigns_from_saved_state = Expected.FactsC07.assigns_from_saved_state.
 Proof. reflexivity. Qed.
+
+Lemma flow_save_state_SavedVmState_agree : Generated.FactsC07.flow_save_state_SavedVmState = Expected.FactsC07.flow_save_state_SavedVmState.
+Proof. reflexivity. Qed.
+
+Lemma flow_save_state_SavedTrampolineFrame_agree : Generated.FactsC07.flow_save_state_SavedTrampolineFrame = Expected.FactsC07.flow_save_state_SavedTrampolineFrame.
+Proof. reflexivity. Qed.
+
+Lemma flow_from_saved_state_Self_agree : Generated.FactsC07.flow_from_saved_state_Self = Expected.FactsC07.flow_from_saved_state_Self.
+Proof. reflexivity. Qed.
+
+Lemma flow_from_saved_state_TrampolineFrame_agree : Generated.FactsC07.flow_from_saved_state_TrampolineFrame = Expected.FactsC07.flow_from_saved_state_TrampolineFrame.
+Proof. reflexivity. Qed.
+
+Lemma flow_generator_store_agree : Generated.FactsC07.flow_generator_store = Expected.FactsC07.flow_generator_store.
+Proof. reflexivity. Qed.
+
+Lemma flow_generator_resume_agree : Generated.FactsC07.flow_generator_resume = Expected.FactsC07.flow_generator_resume.
+Proof. reflexivity. Qed.
